@@ -7,6 +7,8 @@ import (
 	"go/types"
 	"sort"
 	"strings"
+
+	"golang.org/x/tools/go/cfg"
 )
 
 func init() {
@@ -22,6 +24,8 @@ func checkC03(r *Run) {
 	r.Rule("R6", "other panic obligations in lexer/parser/ast: single-result type assertions and index expressions are discharged", 8)
 	r.Rule("R7", "errors are values: Parse returns the error list iff it is non-empty; a parse function that gives up has recorded an error", 3)
 	r.Rule("R8", "cursor invariant: at end of input readChar pins position at len(input) and returns; input is indexed only under the in-range test", 3)
+	r.Rule("R9", "no typed nil: a node pointer that may be nil is never converted to an AST interface (return, assignment, argument, literal field, append) in the parser", 10)
+	r.Rule("R10", "printers are linear: on every path of an AST printer each child expression is printed at most once (the parser prints every statement; a double print costs 2^depth)", 30)
 	lx := analyseLexerArms(r.W)
 	lexerEOFRule(r, "R1", lx)
 	parserLoopsRule(r, "R2")
@@ -31,6 +35,8 @@ func checkC03(r *Run) {
 	otherPanicsRule(r, "R6", lx)
 	errorsAreValuesRule(r, "R7")
 	cursorInvariantRule(r, "R8", lx)
+	typedNilRule(r, "R9")
+	linearPrintersRule(r, "R10")
 }
 
 // ---- R1 ---------------------------------------------------------------------
@@ -1041,4 +1047,326 @@ func callersRequireNonNul(w *World, m *lexerModel, f *FuncInfo) bool {
 		}
 	}
 	return ok && n > 0
+}
+
+// ---- R9: no typed nil --------------------------------------------------------
+
+// typedNilRule: a pointer to an AST node that may be nil must not be converted
+// to one of the AST interfaces (return, assignment, argument, literal field,
+// append): the interface would be non-nil, every `x != nil` test downstream
+// would pass, and the first method call on it dereferences nil.
+func typedNilRule(r *Run, rule string) {
+	w := r.W
+	pm := w.parserModel()
+	if len(pm.problems) > 0 {
+		r.Lost(rule, "parser model")
+		return
+	}
+	nm := buildNilModel(w)
+	isPtr := func(t types.Type) bool {
+		_, ok := t.(*types.Pointer)
+		return ok && isASTRef(t)
+	}
+	isIface := func(t types.Type) bool {
+		if t == nil {
+			return false
+		}
+		_, ok := t.Underlying().(*types.Interface)
+		return ok && isASTRef(t)
+	}
+	for _, f := range w.Funcs("parser") {
+		info := f.Pkg.TypesInfo
+		check := func(e ast.Expr, target types.Type, what string) {
+			tv, ok := info.Types[e]
+			if !ok || !isPtr(tv.Type) || !isIface(target) {
+				return
+			}
+			con := what + " " + short(w.Fset, e) + " as " + types.TypeString(target, func(p *types.Package) string { return p.Name() })
+			if nm.mayNil(f, e, e.Pos()) {
+				r.Bad(rule, f.Name(), con, w.Pos(e.Pos()),
+					"a node pointer that may be nil is converted to an AST interface: the result is a non-nil interface holding a nil pointer, the callers' nil tests pass and the next method call on it panics")
+			} else {
+				r.Ok(rule, f.Name(), con, w.Pos(e.Pos()), "the pointer is non-nil on every path")
+			}
+		}
+		// result types of the innermost enclosing function (declaration or literal)
+		resultsOf := func(n ast.Node) *types.Tuple {
+			for p := w.Parent(n); p != nil; p = w.Parent(p) {
+				switch x := p.(type) {
+				case *ast.FuncLit:
+					if sig, ok := info.Types[x].Type.(*types.Signature); ok {
+						return sig.Results()
+					}
+					return nil
+				case *ast.FuncDecl:
+					return f.Obj.Type().(*types.Signature).Results()
+				}
+			}
+			return nil
+		}
+		ast.Inspect(f.Decl.Body, func(n ast.Node) bool {
+			switch x := n.(type) {
+			case *ast.ReturnStmt:
+				if res := resultsOf(x); res != nil && res.Len() == len(x.Results) {
+					for i, e := range x.Results {
+						check(e, res.At(i).Type(), "return")
+					}
+				}
+			case *ast.AssignStmt:
+				if len(x.Lhs) == len(x.Rhs) {
+					for i, l := range x.Lhs {
+						if tv, ok := info.Types[l]; ok {
+							check(x.Rhs[i], tv.Type, "assignment of")
+						} else if id, ok := l.(*ast.Ident); ok {
+							if o := info.Defs[id]; o != nil {
+								check(x.Rhs[i], o.Type(), "assignment of")
+							}
+						}
+					}
+				}
+			case *ast.ValueSpec:
+				if x.Type != nil && len(x.Values) == len(x.Names) {
+					for _, v := range x.Values {
+						check(v, info.Types[x.Type].Type, "declaration with")
+					}
+				}
+			case *ast.CompositeLit:
+				tv, ok := info.Types[x]
+				if !ok {
+					return true
+				}
+				switch u := tv.Type.Underlying().(type) {
+				case *types.Struct:
+					for _, el := range x.Elts {
+						if kv, ok := el.(*ast.KeyValueExpr); ok {
+							if k, ok := kv.Key.(*ast.Ident); ok {
+								if fld, ok := info.Uses[k].(*types.Var); ok {
+									check(kv.Value, fld.Type(), "field value")
+								}
+							}
+						}
+					}
+				case *types.Slice:
+					for _, el := range x.Elts {
+						check(el, u.Elem(), "element")
+					}
+				}
+			case *ast.CallExpr:
+				if builtinName(info, x) == "append" && len(x.Args) > 1 {
+					if sl, ok := info.Types[x.Args[0]].Type.Underlying().(*types.Slice); ok {
+						for _, a := range x.Args[1:] {
+							check(a, sl.Elem(), "appended")
+						}
+					}
+					return true
+				}
+				if _, isConv := isConversion(info, x); isConv {
+					if len(x.Args) == 1 {
+						check(x.Args[0], info.Types[x].Type, "conversion of")
+					}
+					return true
+				}
+				if sig, ok := info.Types[x.Fun].Type.(*types.Signature); ok {
+					for i, a := range x.Args {
+						if i < sig.Params().Len() && !(sig.Variadic() && i >= sig.Params().Len()-1) {
+							check(a, sig.Params().At(i).Type(), "argument")
+						}
+					}
+				}
+			}
+			return true
+		})
+	}
+}
+
+// ---- R10: printers are linear -----------------------------------------------
+
+// linearPrintersRule: the AST printers are mutually recursive over the tree and
+// the parser prints every top-level statement. A printer that prints the same
+// child twice on one path costs 2^depth on nested blocks (Parse "hangs" on a
+// small input). On every path each child expression is printed at most once.
+func linearPrintersRule(r *Run, rule string) {
+	w := r.W
+	// functions of the ast package that print (call String on) one of their node parameters
+	printsParam := map[*types.Func]map[int]bool{}
+	isNodeString := func(info *types.Info, c *ast.CallExpr) ast.Expr {
+		sel, ok := unparen(c.Fun).(*ast.SelectorExpr)
+		if !ok || len(c.Args) != 0 {
+			return nil
+		}
+		s := info.Selections[sel]
+		if s == nil || s.Kind() != types.MethodVal {
+			return nil
+		}
+		fn, ok := s.Obj().(*types.Func)
+		if !ok || fn.Name() != "String" {
+			return nil
+		}
+		if tv, ok := info.Types[sel.X]; !ok || !isASTRef(tv.Type) {
+			return nil
+		}
+		return sel.X
+	}
+	for _, f := range w.Funcs("ast") {
+		sig := f.Obj.Type().(*types.Signature)
+		for _, c := range callsIn(f.Decl.Body, true) {
+			if x := isNodeString(f.Pkg.TypesInfo, c); x != nil {
+				for i := 0; i < sig.Params().Len(); i++ {
+					if objOf(f.Pkg.TypesInfo, x) == sig.Params().At(i) {
+						if printsParam[f.Obj] == nil {
+							printsParam[f.Obj] = map[int]bool{}
+						}
+						printsParam[f.Obj][i] = true
+					}
+				}
+			}
+		}
+	}
+	for _, f := range w.Funcs("ast") {
+		info := f.Pkg.TypesInfo
+		// every printed child expression in this function
+		type site struct {
+			call *ast.CallExpr
+			recv ast.Expr
+		}
+		printed := func(n ast.Node) []site {
+			var out []site
+			for _, c := range nodeCalls(n) {
+				if x := isNodeString(info, c); x != nil {
+					out = append(out, site{c, x})
+					continue
+				}
+				if cal := calleeOf(info, c); cal != nil && printsParam[cal] != nil {
+					for i, a := range c.Args {
+						if printsParam[cal][i] {
+							out = append(out, site{c, a})
+						}
+					}
+				}
+			}
+			return out
+		}
+		keys := map[string][]site{}
+		for _, s := range printed(f.Decl.Body) {
+			k := types.ExprString(unparen(s.recv))
+			keys[k] = append(keys[k], s)
+		}
+		if len(keys) == 0 {
+			continue
+		}
+		rangeVars := map[*ast.Ident]bool{}
+		inspectBody(f.Decl.Body, true, func(n ast.Node) bool {
+			if rs, ok := n.(*ast.RangeStmt); ok {
+				if id, ok := rs.Key.(*ast.Ident); ok {
+					rangeVars[id] = true
+				}
+				if id, ok := rs.Value.(*ast.Ident); ok {
+					rangeVars[id] = true
+				}
+			}
+			return true
+		})
+		g := cfgOf(info, f.Decl.Body)
+		var ks []string
+		for k := range keys {
+			ks = append(ks, k)
+		}
+		sort.Strings(ks)
+		for _, k := range ks {
+			sites := keys[k]
+			// objects the receiver expression mentions
+			mentions := map[types.Object]bool{}
+			ast.Inspect(sites[0].recv, func(n ast.Node) bool {
+				if id, ok := n.(*ast.Ident); ok {
+					if o := info.Uses[id]; o != nil {
+						mentions[o] = true
+					}
+				}
+				return true
+			})
+			assigns := func(n ast.Node) bool {
+				switch x := n.(type) {
+				case *ast.Ident:
+					if rangeVars[x] {
+						if o := info.Defs[x]; o != nil && mentions[o] {
+							return true
+						}
+						if o := info.Uses[x]; o != nil && mentions[o] {
+							return true
+						}
+					}
+				case *ast.AssignStmt:
+					for _, l := range x.Lhs {
+						if id, ok := l.(*ast.Ident); ok {
+							if o := objOf(info, id); o != nil && mentions[o] {
+								return true
+							}
+						}
+					}
+				case *ast.IncDecStmt:
+					if o := objOf(info, x.X); o != nil && mentions[o] {
+						return true
+					}
+				}
+				return false
+			}
+			bad := false
+			var where ast.Node
+			transfer := func(n ast.Node, st int) int {
+				if assigns(n) {
+					st = 0
+				}
+				for _, s := range printed(n) {
+					if types.ExprString(unparen(s.recv)) == k {
+						st++
+					}
+				}
+				if st > 2 {
+					st = 2
+				}
+				return st
+			}
+			// forward exploration; entering a range body rebinds the loop variables
+			type item struct {
+				b  *cfg.Block
+				st int
+			}
+			seen := map[item]bool{}
+			work := []item{{g.Blocks[0], 0}}
+			for len(work) > 0 {
+				it := work[len(work)-1]
+				work = work[:len(work)-1]
+				if it.b.Kind == cfg.KindRangeBody {
+					if rs, ok := it.b.Stmt.(*ast.RangeStmt); ok {
+						for _, kv := range []ast.Expr{rs.Key, rs.Value} {
+							if id, ok := kv.(*ast.Ident); ok && assigns(id) {
+								it.st = 0
+							}
+						}
+					}
+				}
+				if seen[it] {
+					continue
+				}
+				seen[it] = true
+				st := it.st
+				for _, n := range it.b.Nodes {
+					st = transfer(n, st)
+					if st >= 2 && !bad {
+						bad, where = true, n
+					}
+				}
+				for _, sc := range it.b.Succs {
+					work = append(work, item{sc, st})
+				}
+			}
+			con := "prints " + k
+			if bad {
+				r.Bad(rule, f.Name(), con, w.Pos(where.Pos()),
+					"the same child is printed more than once on one path: printers recurse over the tree, so this costs 2^depth on nested blocks and Parse (which prints every statement) does not return in practice")
+			} else {
+				r.Ok(rule, f.Name(), con, w.Pos(sites[0].call.Pos()), "printed at most once on every path")
+			}
+		}
+	}
 }
